@@ -474,7 +474,7 @@ def resolve_unwindset(h, gb, wdir, deadline):
     return sets, problems, table
 
 
-def run_harness(h, meta, trace=False, tag="", loops_only=False):
+def run_harness(h, meta, trace=False, tag="", loops_only=False, only_property=None):
     wdir = os.path.join(WORK, h.name + tag)
     shutil.rmtree(wdir, ignore_errors=True)
     os.makedirs(wdir)
@@ -526,7 +526,11 @@ def run_harness(h, meta, trace=False, tag="", loops_only=False):
         res["verdict"] = "INCONCLUSIVE"
         res["reasons"].append("loops only")
         return res
-    cmd = [os.path.join(KBIN, "cbmc")] + CBMC_FLAGS
+    flags = list(CBMC_FLAGS)
+    if only_property:
+        # replay run: one property, formula not sliced, so that the trace lists every kani::any() value in program order
+        flags = [f for f in flags if f != "--slice-formula"] + ["--property", only_property, "--trace"]
+    cmd = [os.path.join(KBIN, "cbmc")] + flags
     if meta.get("unwind") is not None:
         cmd += ["--unwind", str(meta["unwind"])]
     if h.unwindset:
@@ -713,6 +717,8 @@ def native_playback(h, violation, timeout=2700):
         mm = re.search(r"panicked at ([^\n]*)\n([^\n]*)", out)
         if mm:
             msg = (mm.group(1) + " " + mm.group(2))[:200]
+        if "concrete_playback.rs" in msg or "det vals" in msg:
+            return "unavailable", "the playback ran out of recorded inputs (" + msg[:120] + ")"
         return "reproduced", msg
     if int(m.group(2)) >= 1:
         return "not-reproduced", "the native test passed with the counterexample's inputs"
